@@ -152,6 +152,23 @@ def corpus(kind, spec, canary, dtd_path, port, rng):
             if b2 != body.replace('@@T0@@', 'x'):
                 docs.append({'template': 'attr-flood-child-%d' % n, 'method': meth, 'pos': 'attr', 'doc': b2, 'bomb': False,
                              'forbidden_text': []})
+    # a document inside a document: the value of an attribute of type AnyXml is XML text that the protocol parses by itself
+    from xml.sax.saxutils import quoteattr
+    frag_body = M.encode_request(kind, 'echo_frag', [('c', {'y': '@@Y@@'})])['body'].decode().replace('@@Y@@', '')
+    inner = [('anyxml-attr-plain', '<x>5</x>', False, None), ('anyxml-attr-internal-entity', '<!DOCTYPE x [<!ENTITY a "%s"><!ENTITY b "%s">]><x>&a;&b;</x>' % (repl[:6], repl[6:]), False, repl),
+             ('anyxml-attr-ext-general-file', '<!DOCTYPE x [<!ENTITY a SYSTEM "file://%s">]><x>&a;</x>' % canary, False, 'CANARYCONTENT'),
+             ('anyxml-attr-ext-general-http', '<!DOCTYPE x [<!ENTITY a SYSTEM "http://127.0.0.1:%d/x">]><x>&a;</x>' % port, False, None),
+             ('anyxml-attr-ext-dtd-subset', '<!DOCTYPE x SYSTEM "%s"><x>&fromdtd;</x>' % dtd_path, False, 'DTDLOADEDTEXT'),
+             ('anyxml-attr-ext-parameter', '<!DOCTYPE x [<!ENTITY %% p SYSTEM "file://%s"> %%p;]><x>&fromdtd;</x>' % dtd_path, False, 'DTDLOADEDTEXT'),
+             ('anyxml-attr-xinclude', '<x><xi:include xmlns:xi="http://www.w3.org/2001/XInclude" href="file://%s" parse="text"/></x>' % canary, False, 'CANARYCONTENT')]
+    for fan, depth in ((10, 5), (2, 9)) if tier == 'quick' else ((10, 5), (2, 9), (10, 8), (3, 12)):
+        # (a refusal may quote the text it refuses: the marker is spelled by two entities, so it only exists where they were expanded)
+        ents = ['<!ENTITY z "LOL"><!ENTITY e0 "&z;%s">' % repl] + ['<!ENTITY e%d "%s">' % (i, ('&e%d;' % (i - 1)) * fan) for i in range(1, depth + 1)]
+        inner.append(('bomb-anyxml-attr-chain-f%d-d%d' % (fan, depth), '<!DOCTYPE x [%s]><x>&e%d;</x>' % (''.join(ents), depth), True, 'LOL' + repl))
+    for tname, text, is_bomb, marker in inner:
+        doc = re.sub(r'<tns:c>', lambda m: '<tns:c x=%s>' % quoteattr(text), frag_body, count=1)
+        docs.append({'template': tname, 'method': 'echo_frag', 'pos': 'attr-declared', 'doc': doc, 'bomb': is_bomb, 'control': tname.endswith('-plain'),
+                     'forbidden_text': [marker] if marker else []})
     # SOAP multi-reference values (id/href): a value referenced from several places is expanded at each of them, so chains of
     # references multiply like entity chains do; and what is copied for each reference includes the attributes of the value
     if kind in ('soap11', 'soap12'):
@@ -260,7 +277,7 @@ def child_main(corpus_path, out_path):
     early = make_bystanders('before')
     inp, outp = M.make_protocols(kind)         # default-constructed protocols
     from spyne import Application
-    svc, _ = M.build_service(rec)
+    svc, _ = M.build_service(rec, {'anyxml': True})
     app = Application([svc], M.TNS, name='C17App', in_protocol=inp, out_protocol=outp)
     if driver == 'wsgi':
         from spyne.server.wsgi import WsgiApplication
